@@ -408,7 +408,10 @@ func runMergeProfiles(c *Case) {
 			payloads = append(payloads, c.Profs[i].payload)
 		}
 	}
+	payloads = append(payloads, c.RWPayloads...)
 	o.N = len(payloads)
+	strs := newStrTable()
+	c.RWIn, c.RWOut = dumpPayloads(strs, payloads), nil
 	svcMtx.Lock()
 	svcSQL = nil
 	svcPayloads = payloads
@@ -428,6 +431,7 @@ func runMergeProfiles(c *Case) {
 			}
 			return "?"
 		}
+		c.RWOut = dumpProfile(strs, p)
 		for _, st := range p.SampleType {
 			name := str(st.Type) + ":" + str(st.Unit)
 			o.Types = append(o.Types, name)
